@@ -24,6 +24,6 @@ run_one() {
 pids=()
 for d in "${files[@]}"; do
   run_one "$d" & pids+=($!)
-  if [ ${#pids[@]} -ge 4 ]; then wait "${pids[0]}"; pids=("${pids[@]:1}"); fi
+  if [ ${#pids[@]} -ge 6 ]; then wait "${pids[0]}"; pids=("${pids[@]:1}"); fi
 done
 wait
